@@ -178,14 +178,6 @@ def rrsigHeader (s : RRSig) : Bytes :=
   be16 s.typeCovered ++ [s.algorithm, s.labels] ++ be32 s.originalTtl ++ be32 s.expiration ++
     be32 s.inception ++ be16 s.keyTag
 
-/-- which expression the code uses for the Signer's Name field of the signed data.
-`asShipped`: `rrsig.signer.to_digestable(signer)` (the relative signer is concatenated with the already
-derelativized signer); `intended`: `signer.to_digestable()`. They coincide when `rrsig.signer` is absolute
-or empty. -/
-inductive SignerVariant where
-  | asShipped | intended
-  deriving DecidableEq, Repr
-
 def wildLabel : Label := [42]
 
 def derelativizeD (n : Name) (origin : Option Name) : Except DErr Name :=
@@ -196,7 +188,7 @@ def derelativizeD (n : Name) (origin : Option Name) : Except DErr Name :=
 
 def rrRecord (owner fixed rdata : Bytes) : Bytes := owner ++ fixed ++ be16 rdata.length ++ rdata
 
-def rrsigData (v : SignerVariant) (t : CanonTable) (sig : RRSig) (origin : Option Name)
+def rrsigData (t : CanonTable) (sig : RRSig) (origin : Option Name)
     (rrname : Name) (rdtype rdclass : Nat) (rdatas : List Rdata) : Except DErr Bytes :=
   -- signer = rrsig.signer, derelativized
   match derelativizeD sig.signer origin with
@@ -206,9 +198,8 @@ def rrsigData (v : SignerVariant) (t : CanonTable) (sig : RRSig) (origin : Optio
   match nameWireFile sig.signer (some signer) false with
   | .error e => .error e
   | .ok _ =>
-  match (match v with
-         | .asShipped => nameDigestable sig.signer (some signer)
-         | .intended => nameDigestable signer none) with
+  -- `data += signer.to_digestable()` (commit b931905; before it: `rrsig.signer.to_digestable(signer)`)
+  match nameDigestable signer none with
   | .error e => .error e
   | .ok signerBuf =>
   match derelativizeD rrname origin with
@@ -297,6 +288,85 @@ def nsec3Hash (H : Bytes → Bytes) (domain : Name) (salt : Bytes) (iterations :
     | .error e => .error e
     | .ok w => .ok ((b32encode b32Std (nsec3Iter H salt iterations (H (w ++ salt)))).map b32Translate)
 
+/-! ### argument normalisation of `nsec3_hash` (ASCII text only; IDNA is outside the model) -/
+
+/-- ASCII whitespace skipped by `bytes.fromhex` between octets -/
+def hexWs (c : Nat) : Bool := c == 32 || c == 9 || c == 10 || c == 13 || c == 11 || c == 12
+
+def hexValN (c : Nat) : Option Nat :=
+  if 48 ≤ c ∧ c ≤ 57 then some (c - 48)
+  else if 97 ≤ c ∧ c ≤ 102 then some (c - 87)
+  else if 65 ≤ c ∧ c ≤ 70 then some (c - 55)
+  else none
+
+/-- `bytes.fromhex(text)` -/
+def pyFromHex : List Nat → Option Bytes
+  | [] => some []
+  | [c] => if hexWs c then some [] else none
+  | c :: d :: rest =>
+    if hexWs c then pyFromHex (d :: rest)
+    else match hexValN c, hexValN d, pyFromHex rest with
+      | some x, some y, some r => some ((16 * x + y) :: r)
+      | _, _, _ => none
+
+inductive SaltArg where
+  | none | text (t : List Nat) | bytes (b : Bytes)
+  deriving Repr
+
+/-- `None` -> empty; `str` -> even length required, then `bytes.fromhex`; `bytes` as is -/
+def saltEncode : SaltArg → Except DErr Bytes
+  | .none => .ok []
+  | .bytes b => .ok b
+  | .text t =>
+    if t.length % 2 = 0 then
+      match pyFromHex t with
+      | some b => .ok b
+      | none => .error .value
+    else .error .value
+
+inductive AlgArg where
+  | num (n : Nat) | text (t : List Nat)
+  deriving Repr
+
+def upperOctet (c : Nat) : Nat := if 97 ≤ c ∧ c ≤ 122 then c - 32 else c
+
+/-- `NSEC3Hash[algorithm.upper()]` for a string (the enum has the single member SHA1 = 1), the integer itself otherwise -/
+def algDecode : AlgArg → Except DErr Nat
+  | .num n => .ok n
+  | .text t => if t.map upperOctet = [83, 72, 65, 49] then .ok 1 else .error .value
+
+inductive DomainArg where
+  | name (n : Name) | text (t : List Nat)
+  deriving Repr
+
+/-- `dns.name.from_text(domain)` (origin defaults to the root) for a string -/
+def domainDecode : DomainArg → Except DErr Name
+  | .name n => .ok n
+  | .text t => liftName (fromText t (some [[]]))
+
+/-- `nsec3_hash(domain, salt, iterations, algorithm)` with every accepted argument form; checks in code order:
+algorithm, salt, domain -/
+def nsec3HashArgs (H : Bytes → Bytes) (domain : DomainArg) (salt : SaltArg) (iterations : Nat) (alg : AlgArg) :
+    Except DErr (List Nat) :=
+  match algDecode alg with
+  | .error e => .error e
+  | .ok a =>
+    if a ≠ 1 then .error .value
+    else match saltEncode salt with
+      | .error e => .error e
+      | .ok s =>
+        match domainDecode domain with
+        | .error e => .error e
+        | .ok n => nsec3Hash H n s iterations 1
+
+/-- the owner name of the NSEC3 record for `domain` in zone `zone`, as callers build it:
+`dns.name.from_text(nsec3_hash(…), zone)` (RFC 5155 §3: the base32hex hash as one label prepended to the zone name) -/
+def nsec3Owner (H : Bytes → Bytes) (domain : DomainArg) (salt : SaltArg) (iterations : Nat) (alg : AlgArg) (zone : Name) :
+    Except DErr Name :=
+  match nsec3HashArgs H domain salt iterations alg with
+  | .error e => .error e
+  | .ok h => liftName (fromText h (some zone))
+
 /-! ## type bitmaps (`Bitmap.from_rdtypes`, `Bitmap.to_wire`) -/
 
 structure BmState where
@@ -350,11 +420,6 @@ inductive Evt where
 
 /-- Python truthiness of a `Name`: `__len__() != 0` -/
 def truthy (n : Name) : Bool := n.length != 0
-
-/-- how the last name of the walk is tested: `if last_secure:` (as shipped) or `is not None` -/
-inductive LastVariant where
-  | asShipped | intended
-  deriving DecidableEq, Repr
 
 structure NsecConsts where
   tNS : Nat
@@ -428,18 +493,17 @@ def walkStep (c : NsecConsts) (origin : Name) (nodes : List ZNode) (withSigner :
         linkFrom c origin nodes withSigner st.lastSecure node.name }
 
 /-- the walk over an already sorted node list, and the wrap-around to the origin -/
-def walkSorted (c : NsecConsts) (v : LastVariant) (origin : Name) (nodes : List ZNode) (withSigner : Bool)
+def walkSorted (c : NsecConsts) (origin : Name) (nodes : List ZNode) (withSigner : Bool)
     (sorted : List ZNode) : List Evt :=
   let st := sorted.foldl (walkStep c origin nodes withSigner) { delegation := none, lastSecure := none, out := [] }
   match st.lastSecure with
   | none => st.out
   | some l =>
-    if (match v with | .asShipped => truthy l | .intended => true) then
-      st.out ++ addNsec c origin nodes withSigner l origin
-    else st.out
+    -- `if last_secure is not None:` (commit 67da86e; before it `if last_secure:`, false for the empty name)
+    st.out ++ addNsec c origin nodes withSigner l origin
 
-def signZoneNsec (c : NsecConsts) (v : LastVariant) (origin : Name) (nodes : List ZNode) (withSigner : Bool) : List Evt :=
-  walkSorted c v origin nodes withSigner (insSort (fun a b => nameLe a.name b.name) nodes)
+def signZoneNsec (c : NsecConsts) (origin : Name) (nodes : List ZNode) (withSigner : Bool) : List Evt :=
+  walkSorted c origin nodes withSigner (insSort (fun a b => nameLe a.name b.name) nodes)
 
 /-! ## specification side of the NSEC chain (no code of dnspython corresponds to these definitions) -/
 
